@@ -34,13 +34,17 @@ EXIT_BY_DESIGN = {
 }
 
 TIERS = dict(
+    # sized by measurement: one call (fresh Interp, two gojq compilations of the bundled jq sources) is ~30 CPU-ms, 12 workers on
+    # the shared 16-core box at load 60-90 sustain 90-140 calls/s
     quick=dict(full=('go', 'public', 'cli'), workers=12, mem_kb=4194304, per_call=20,
                grid={'go': (5, 4, 3), 'public': (5, 4, 3), 'cli': (5, 4, 3), 'internal': (3, 2, 2), 'generated': (3, 2, 2)},
-               frac={'internal': 0.15, 'generated': 0.15}, generated_names=8, opt_budget=600, pairs=False),
-    thorough=dict(full=('go', 'public', 'cli', 'internal', 'generated'), workers=12, mem_kb=4194304, per_call=20,
-                  grid={'go': (6, 6, 4), 'public': (6, 6, 4), 'cli': (6, 6, 4), 'internal': (6, 4, 3), 'generated': (6, 4, 3)},
-                  frac={}, generated_names=None, opt_budget=40000, pairs=True),
+               frac={'internal': 0.1, 'generated': 0.15}, generated_names=8, opt_budget=500, pairs=False),
+    thorough=dict(full=('go', 'public', 'cli', 'internal'), workers=12, mem_kb=4194304, per_call=20,
+                  grid={'go': (6, 4, 3), 'public': (6, 4, 3), 'cli': (6, 4, 3), 'internal': (6, 4, 3), 'generated': (3, 3, 2)},
+                  frac={'generated': 0.5}, generated_names=None, opt_budget=12000, pairs=True),
 )
+PAIR_POOL = ('null', 'neg1', 'one', 'p64', 'nan', 'str_empty', 'str_a', 'bin_unaligned', 'arr_empty', 'arr_plain', 'obj_plain',
+             'opt_unit0', 'opt_indent_neg', 'dv_struct')
 
 
 # ------------------------------------------------------------------------------------------------ pool
@@ -96,6 +100,7 @@ def build_pool(ctx, optkeys):
             B.append(dict(name='o_%s_%s' % (k, vn), expr='{%s: %s}' % (json.dumps(k), ve), inp=True, benign=False, pair=False, base=False))
     for i, b in enumerate(B):
         b['id'] = i + 1
+        b['pair'] = b['name'] in PAIR_POOL
     return B
 
 
@@ -326,7 +331,7 @@ def run(ctx):
         else:
             k = max(1, int(round(len(nonbenign) * fr)))
             f['req'] = sorted(rng.sample(nonbenign, k))
-        f['pairs'] = bool(cfg['pairs']) and 1 <= f['arity'] <= 2 and bool(f['req'])
+        f['pairs'] = bool(cfg['pairs']) and 1 <= f['arity'] <= 2 and bool(f['req']) and f['cls'] != 'generated'
     active = [f for f in fns if f['req']]
 
     # ---- 2. phase A: grid of per-type benign defaults at all positions at once (finds a context each function accepts)
